@@ -158,6 +158,42 @@ fn run_v3(v: &V3, q: &str) -> Result<Rows, String> {
 /// results on V3 must equal those on `Value` - names that need escapes, start with a quote or are spelled
 /// with free escapes included (what the engine does with the escapes cancels in the comparison).
 fn random_one_pair_get(src: &mut Src, obs: &mut Obs) -> Res {
+    if src.chance(1, 6) {
+        // member names of *compared objects* never pass through `get`: objects whose names differ only in
+        // layers of quotes are different objects on every data type
+        let names = ["k", "'k'", "''k''", "\"k\"", "\"\"k\"\"", "'k", "k'", "'\"k\"'"];
+        let n = 1 + src.below(4);
+        let rows: Vec<J> = (0..n)
+            .map(|_| {
+                let v = J::Int(src.range(0, 1));
+                let a = J::Obj(vec![(src.pick(&names).to_string(), v.clone())]);
+                let b = J::Obj(vec![(src.pick(&names).to_string(), if src.chance(1, 4) { J::Int(2) } else { v })]);
+                J::Arr(vec![a, b])
+            })
+            .collect();
+        let doc = J::Arr(rows);
+        let text = format!("$[?@[0] {} @[1]]", src.pick(&["==", "!=", "<="]));
+        obs.eval(3);
+        obs.label("objects-with-quote-layered-names-compared");
+        obs.nontrivial(&(text.as_str(), doc.text()), || json!({"query": text, "doc": doc.to_value()}));
+        let rv = run_value(&doc.to_value(), &text);
+        let r1 = run_v1(&V1::from_j(&doc), &text).map(|x| x.0);
+        let r3 = run_v3(&V3::from_j(&doc), &text);
+        for (name, r) in [("V1", &r1), ("V3 (get strips exactly one pair of quotes)", &r3)] {
+            let same = match (&rv, r) {
+                (Ok(a), Ok(b)) => rows_equal(a, b),
+                (Err(a), Err(b)) => a.starts_with("Err") && b.starts_with("Err"),
+                _ => false,
+            };
+            if !same {
+                return Err(Failure::new(
+                    format!("comparing two objects gives different results on serde_json::Value and on the faithful Queryable type {}", name),
+                    json!({"query": text, "doc": doc.to_value(), "on_value": show(&rv), "on_other_type": show(r)}),
+                ));
+            }
+        }
+        return Ok(());
+    }
     let mut cfg = cfg15();
     cfg.special_keys = true;
     cfg.free_escapes = src.bool();
